@@ -69,6 +69,7 @@ static Verdict run(const Case &c) {
 int main(int argc, char **argv) {
     Args a = parse_args(argc, argv);
     if (!a.replay.empty()) return replay_case(a, run);
+    zygote_start(run);   // before any code under test runs in this process
     Current::install(a.failing);
     Evidence ev;
     ev.rule = "(1) exhaustive: 4 states x session events 0..7 x elapsed {0, t-1, t, t+1, 10t} s, from a fresh automaton driven into the start state by legal events, judged by the life-cycle table of the statement "
